@@ -81,6 +81,19 @@ pub fn run(ctx: &Ctx) -> Report {
         for f in fails { acc.violation(f.sig, case_id(fam, idx, p, s, true), f.detail); }
     });
     rep.absorb(r);
+    // scale: every program under the gap styles (255 / 256 / 257 / 300 / 1000 comment-only lines in front of statements, 16 before every one) over
+    // a few primary styles, and the scale family (long labels, hundreds of blocks / statements, > 65536 lines) under plain and gap styles
+    let f = families();
+    let mut big: Vec<(&'static str, u64, u64, u64)> = vec![];
+    for (fam, idx) in &progs { if *fam == "BASE" || *fam == "LAB" { for g in 1..7u64 { for p in [0u64, 3887, 5 * 324 + 17] { big.push((fam, *idx, p, 1 + 160 * g)); } } } }
+    for i in 0..f.len("BIG") { for (p, sec) in [(0u64, 1u64), (0, 1 + 160), (3887, 1 + 160 * 4)] { big.push(("BIG", i, p, sec)); } }
+    let r = sweep(ctx, big.len() as u64, 4, |k, acc| {
+        let (fam, idx, p, s) = big[k as usize];
+        let Some((fails, _)) = one(fam, idx, p, s) else { return };
+        acc.evals += 1; acc.transitions += 4; acc.nontrivial += 1; acc.count("scale_cases", 1);
+        for f in fails { acc.violation(f.sig, case_id(fam, idx, p, s, true), f.detail); }
+    });
+    rep.absorb(r);
     rep.bound("programs", Json::i(np)); rep.bound("primary_styles", Json::i(Style::PRIMARY)); rep.bound("primary_stride", Json::i(pstride)); rep.bound("secondary_combinations", Json::i(ns));
     rep.require(rep.acc.get("parsed") * 10 > rep.acc.evals * 9 / 2, "renderings parse");
     rep.assume("label names avoid the lexer's documented collisions (x+hex digit, R+digits, mnemonics)");
